@@ -20,5 +20,6 @@ def run(chk):
     from . import state_contracts
     state_contracts.create_checkpoint(chk, "C03", want=("C03",))
     state_contracts.consumer(chk, "C03")
+    state_contracts.completion_event_contract(chk, "C03")
     from . import wrapper_contracts
     wrapper_contracts.wrapper_obligations(chk, "C03", want=("C03",))
